@@ -408,7 +408,8 @@ SET_OF__encode_sorted(const asn_TYPE_member_t *elm,
 
         return encoded_els;
     } else {
-        SET_OF__encode_sorted_free(encoded_els, edx);
+        /* The element that failed may own a partially filled buffer */
+        SET_OF__encode_sorted_free(encoded_els, list->count);
         return NULL;
     }
 }
